@@ -234,3 +234,18 @@ Theorem prefix_table_disjoint_from_trackers :
   forall p, In p cssPrefixedProps -> existsb (zlist_eqb p) trackedProps = false.
 Proof. exact prefix_table_disjoint_from_trackers_all. Qed.
 Print Assumptions prefix_table_disjoint_from_trackers.
+
+(* PERCENTAGE REFERENCE RANGES of lab()/lch()/oklab()/oklch()/color().  The full
+   statement "forall fn comp, model_pct_ref fn comp = spec_pct_ref fn comp" is
+   FALSE of the faithful model: the chroma of lch() is resolved against 125, CSS
+   Color 4 says 150 (known finding C12-Q; witness a{color:lch(60% 40% 120)} is
+   replayed from the corpus, it changes the rendered colour). Everything else agrees. *)
+Theorem pct_reference_lch_chroma_refuted : model_pct_ref 2 1 <> spec_pct_ref 2 1.
+Proof. exact pct_reference_lch_chroma_refuted_all. Qed.
+Print Assumptions pct_reference_lch_chroma_refuted.
+
+Theorem pct_reference_ranges_partial : forall fn comp,
+  1 <= fn <= 5 -> 0 <= comp <= 2 ->
+  ~ (fn = 2 /\ comp = 1) -> model_pct_ref fn comp = spec_pct_ref fn comp.
+Proof. exact pct_reference_ranges_partial_all. Qed.
+Print Assumptions pct_reference_ranges_partial.
